@@ -265,6 +265,7 @@ def solve_script(args):
     D: remaining goals under the full pc, first back end then the other.
     Dropping assumptions (A-C) is sound: it can only make a proof harder."""
     s, timeout_s, both = args
+    deep = both == "deep"
     for k, g in enumerate(s["goals"]):
         g["id"] = f"g{k}"
     results = {g["id"]: {"res": "unknown", "backend": None, "ms": 0, "model": ""} for g in s["goals"]}
@@ -273,6 +274,10 @@ def solve_script(args):
     dropped = len(qf_pc) != len(full_pc)
     consts = {n for n, args_, r in s["decls"] if not args_}
     pcres = None
+
+    def record(g, res, backend, secs, n, model=""):
+        results[g["id"]] = {"res": res, "backend": backend, "ms": int(secs * 1000 / max(1, n)), "model": model}
+
     pending = [g for g in s["goals"] if g["kind"] != "canary"]
     quick = min(timeout_s, 3)
     # canaries: a deliberately false clause; one cheap attempt, anything but 'unsat' is the expected outcome
@@ -293,7 +298,7 @@ def solve_script(args):
                 results[g["id"]] = {"res": r[0], "backend": parsed["by"].get(g["id"]), "ms": int(secs * 1000), "model": ""}
     # 0: per goal, cone of influence (2 hops) of the quantifier-free pc, in-process z3, memoised
     #    on (cone, goal): paths that differ only in unrelated decisions share the work
-    if os.environ.get("VERIF_STEP0", "1") != "0" and smt.z3api():
+    if os.environ.get("VERIF_STEP0", "1") != "0" and smt.z3api() and not deep:
         still = []
         t0 = time.time()
         hdr_cache = {}
@@ -313,7 +318,7 @@ def solve_script(args):
                 results[g["id"]]["ms"] = int(dt * 1000 / max(1, len(pending) - len(still)))
         pending = still
     # A
-    if len(pending) > 1:
+    if len(pending) > 1 and not deep:
         conj = {"id": "conj", "goal": "(and " + " ".join(g["goal"] for g in pending) + ")"}
         be = _backend_order(qf_pc + [conj["goal"]])[0]
         s2 = dict(s, decls=_prune_decls(s, qf_pc, [conj]), values=[])
@@ -325,7 +330,7 @@ def solve_script(args):
                 record(g, "unsat", parsed["by"].get("conj", be), secs, len(pending))
             pending = []
     # B
-    if pending:
+    if pending and not deep:
         be = _backend_order(qf_pc + [g["goal"] for g in pending])[0]
         parsed, secs, out = _run_goals(s, qf_pc, pending, be, quick)
         if parsed["pc"] == "unsat":
@@ -337,6 +342,9 @@ def solve_script(args):
             r = parsed["goals"].get(g["id"], ["unknown", ""])
             if r[0] == "unsat" or (r[0] == "sat" and not dropped):
                 record(g, r[0], parsed["by"].get(g["id"], be), secs, len(pending), r[1] if r[0] == "sat" else "")
+            elif r[0] == "sat":
+                # counter-model of a subset of the assumptions: a *candidate*, to be replayed on the real code
+                record(g, "cand", parsed["by"].get(g["id"], be), secs, len(pending), r[1])
             else:
                 still.append(g)
         pending = still
@@ -476,6 +484,7 @@ def run(prop, tier, seed, timeout_s, args, t_start):
             jobs.append((prop, ci, gi))
     known = load_known(prop)
     pool = multiprocessing.Pool(args.jobs)
+    early = False
     try:
         jobs = [j for js in pool.map(split_worker, jobs, chunksize=1) for j in js]
         gens = merge_gens(pool.map(gen_worker, jobs, chunksize=1))
@@ -496,21 +505,36 @@ def run(prop, tier, seed, timeout_s, args, t_start):
                 s2 = dict(s)
                 s2["goals"] = [dict(x) for x in gl[k:k + 40]]
                 work.append((s2, timeout_s, tier == "thorough"))
-        solved = pool.map(solve_script, work, chunksize=1)
+        # deterministic shuffle: failing paths tend to sit together in DFS order
+        import random
+        random.Random(seed).shuffle(work)
+        solved = []
+        ncand = 0
+        for sr in pool.imap_unordered(solve_script, work, chunksize=2):
+            solved.append(sr)
+            if any(r["res"] in ("sat", "cand") and g["kind"] != "canary"
+                   for g in sr["script"]["goals"] for r in [sr["results"][g["id"]]]):
+                ncand += 1
+            if ncand >= 8 and len(solved) < len(work) and os.environ.get("VERIF_NO_EARLY") != "1":
+                early = True     # enough refuted obligations to triage: fail fast
+                break
         # undecided paths: ignore if infeasible
         und_jobs = []
         for g in gens:
             for u in g["undecided"]:
                 und_jobs.append((g, u))
-        und_res = pool.map(feas_worker, [({"pc": u["pc"], "decls": u["decls"], "tsorts": u["tsorts"], "usorts": u["usorts"]},
+        und_res = [] if early else pool.map(feas_worker, [({"pc": u["pc"], "decls": u["decls"], "tsorts": u["tsorts"], "usorts": u["usorts"]},
                                           timeout_s) for _, u in und_jobs], chunksize=1) if und_jobs else []
         exit_jobs = []
         for g in gens:
             for e in g["exit_scripts"]:
                 exit_jobs.append((g, e))
-        exit_res = pool.map(feas_worker, [(e, timeout_s) for _, e in exit_jobs], chunksize=1) if exit_jobs else []
+        exit_res = pool.map(feas_worker, [(e, timeout_s) for _, e in exit_jobs], chunksize=1) if exit_jobs and not early else []
     finally:
-        pool.close()
+        if early:
+            pool.terminate()
+        else:
+            pool.close()
         pool.join()
 
     # --- collect ----------------------------------------------------------
@@ -530,8 +554,8 @@ def run(prop, tier, seed, timeout_s, args, t_start):
                 continue
             if r["res"] == "unsat":
                 rec["result"] = "vacuous" if sr["pc"] == "unsat" else "proved"
-            elif r["res"] == "sat":
-                rec["result"] = "refuted"
+            elif r["res"] in ("sat", "cand"):
+                rec["result"] = "refuted" if r["res"] == "sat" else "cand"
                 rec["model"] = smt.parse_model(r["model"], [smt.T(so, v) for v, so in s["values"]])
                 rec["_script"] = s
                 rec["_goal"] = g
@@ -544,6 +568,8 @@ def run(prop, tier, seed, timeout_s, args, t_start):
     for key, seen in canary_seen.items():
         if not seen:
             report["canary_fail"].append(key)
+    if early:
+        print(f"note: stopped after {len(solved)} of {len(work)} obligation groups: refuted obligations found, triaging them first")
     for (g, u), r in zip(und_jobs, und_res):
         if r != "unsat":
             report["undecided"].append({"contract": g["contract"], "cfg": g["cfg"], "msg": u["msg"], "pc_status": r})
@@ -558,46 +584,107 @@ def run(prop, tier, seed, timeout_s, args, t_start):
             os.unlink(os.path.join(HERE, "replays", fn))
     viol_lines = []
     known_lines = []
+    groups = {}
     for rec in report["obligations"]:
-        if rec["result"] not in ("refuted", "unknown"):
-            continue
-        s, g = rec.pop("_script"), rec.pop("_goal")
         if rec["result"] == "unknown":
+            s_, g_ = rec.pop("_script"), rec.pop("_goal")
             if args.dump:
-                dump_script(args.dump, s, g)
+                dump_script(args.dump, s_, g_)
             continue
-        c = next(x for x in reg.all if x.name == rec["contract"])
-        kf = known_for(known, rec["contract"], rec["cfg"], rec["name"])
-        if kf is not None and kf.get("region"):
-            # the obligation must hold outside the listed region
-            region = region_term(mod, c, kf, s)
-            r2 = solve_script((dict(s, pc=s["pc"] + [f"(not {region})"], goals=[dict(g)]), timeout_s, False))
-            rr = list(r2["results"].values())[0]
-            if rr["res"] == "unsat":
-                rec["result"] = "known-finding"
-                rec["finding"] = kf.get("id", "")
+        if rec["result"] in ("refuted", "cand"):
+            groups.setdefault((rec["contract"], strip_lines(rec["name"])), []).append(rec)
+    replays_left = [int(os.environ.get("VERIF_MAX_REPLAYS", "24"))]
+    for (cname, gname), recs in groups.items():
+        c = next(x for x in reg.all if x.name == cname)
+        # known findings: the obligation must hold outside the listed region
+        kf = known_for(known, cname, recs[0]["cfg"], recs[0]["name"])
+        if kf is not None:
+            left = []
+            for rec in recs:
+                if not kf.get("region"):
+                    rec["result"] = "known-finding"
+                    continue
+                s_, g_ = rec["_script"], rec["_goal"]
+                r2 = solve_script((dict(s_, pc=s_["pc"] + [f"(not {kf['region']})"], goals=[dict(g_)]), timeout_s, False))
+                rr = list(r2["results"].values())[0]
+                if rr["res"] == "unsat":
+                    rec["result"] = "known-finding"
+                else:
+                    if rr["res"] in ("sat", "cand"):
+                        rec["model"] = smt.parse_model(rr["model"], [smt.T(so, v) for v, so in s_["values"]])
+                        rec["result"] = "refuted" if rr["res"] == "sat" else "cand"
+                    left.append(rec)
+            if any(r["result"] == "known-finding" for r in recs):
                 known_lines.append((kf.get("id", ""), kf.get("what", "")))
+            for r in recs:
+                if r["result"] == "known-finding":
+                    r["finding"] = kf.get("id", "")
+                    r.pop("_script", None)
+                    r.pop("_goal", None)
+            recs = left
+            if not recs:
                 continue
-            if rr["res"] == "sat":
-                rec["model"] = smt.parse_model(rr["model"], [smt.T(so, v) for v, so in s["values"]])
-            else:
-                rec["result"] = "unknown"
-                rec["raw"] = "known-finding complement undecided"
-                continue
-        elif kf is not None:
-            rec["result"] = "known-finding"
-            rec["finding"] = kf.get("id", "")
-            known_lines.append((kf.get("id", ""), kf.get("what", "")))
-            continue
-        if rec["kind"] in INTERNAL_KINDS:
-            rec["result"] = "proof-broken"
-        replay_path, reproduced, observed = do_replay(prop, c, rec, s, g)
-        rec["replay"] = replay_path
-        rec["reproduced"] = reproduced
-        if rec["kind"] in INTERNAL_KINDS and not reproduced:
-            continue
-        rec["result"] = "refuted"
-        viol_lines.append((replay_path, reproduced, rec))
+        internal = recs[0]["kind"] in INTERNAL_KINDS
+        # replay candidate models on the real code (a few per clause)
+        reproduced_rec = None
+        last_replay = None
+        order = sorted(recs, key=lambda r: 0 if r["result"] == "refuted" else 1)
+        for rec in order[:3]:
+            if replays_left[0] <= 0 or c.replay is None:
+                break
+            replays_left[0] -= 1
+            p, ok, observed = do_replay(prop, c, rec, rec["_script"], rec["_goal"])
+            rec["replay"], rec["reproduced"] = p, ok
+            last_replay = (p, rec)
+            if ok:
+                reproduced_rec = (p, rec)
+                break
+        if reproduced_rec is not None:
+            for rec in recs:
+                rec["result"] = "refuted"
+            viol_lines.append((reproduced_rec[0], True, reproduced_rec[1]))
+        else:
+            # no failing input found: a genuine refutation needs a model of the *full* path condition
+            finals = [r for r in recs if r["result"] == "refuted"]
+            if not finals:
+                deep = [(dict(r["_script"], goals=[dict(r["_goal"])]), timeout_s, "deep") for r in recs[:8]]
+                for r, sr in zip(recs[:8], [solve_script(a) for a in deep]):
+                    rr = list(sr["results"].values())[0]
+                    if rr["res"] == "unsat":
+                        r["result"] = "proved"
+                        r["backend"] = rr["backend"]
+                    elif rr["res"] == "sat":
+                        r["result"] = "refuted"
+                        r["model"] = smt.parse_model(rr["model"], [smt.T(so, v) for v, so in r["_script"]["values"]])
+                        finals.append(r)
+                    else:
+                        r["result"] = "unknown"
+                        r["raw"] = "candidate counter-model did not replay; full query undecided"
+                for r in recs[8:]:
+                    if r["result"] == "cand":
+                        r["result"] = "unknown"
+                        r["raw"] = "candidate counter-model not replayed (same clause as another undecided obligation)"
+            if finals:
+                if internal:
+                    for r in recs:
+                        if r["result"] in ("refuted", "cand"):
+                            r["result"] = "proof-broken"
+                else:
+                    rec = finals[0]
+                    if last_replay is not None and last_replay[1] is rec:
+                        p = last_replay[0]
+                    else:
+                        p, _, _ = do_replay(prop, c, rec, rec["_script"], rec["_goal"], run=False)
+                    for r in recs:
+                        if r["result"] == "cand":
+                            r["result"] = "refuted"
+                    viol_lines.append((p, False, rec))
+        for r in recs:
+            r.pop("_script", None)
+            r.pop("_goal", None)
+    for rec in report["obligations"]:
+        rec.pop("_script", None)
+        rec.pop("_goal", None)
 
     # --- extra sections: tables / lemmas / bounded --------------------------
     extra = {"tables": [], "bounded": [], "lemmas": []}
@@ -645,7 +732,7 @@ def run(prop, tier, seed, timeout_s, args, t_start):
     rc = 0
     # vacuity guards
     guard_msgs = []
-    for g in gens:
+    for g in ([] if early else gens):
         fe = feasible.get((g["contract"], g["cfg"]), {})
         if fe and not any(v in ("sat", "unknown") for v in fe.values()):
             c = next(x for x in reg.all if x.name == g["contract"])
@@ -653,7 +740,7 @@ def run(prop, tier, seed, timeout_s, args, t_start):
                 guard_msgs.append(f"no feasible exit for {g['contract']} [{g['cfg']}] (contradictory requires?) {fe}")
         if not g["scripts"] and not g["undecided"]:
             guard_msgs.append(f"zero obligations for {g['contract']} [{g['cfg']}]")
-    if report["canary_fail"]:
+    if report["canary_fail"] and not early:
         guard_msgs.append(f"canary not refuted: {report['canary_fail']}")
     seen_k = set()
     for kid, what in known_lines:
@@ -718,7 +805,7 @@ def write_replay(prop, data):
     return p
 
 
-def do_replay(prop, c, rec, s, g):
+def do_replay(prop, c, rec, s, g, run=True):
     """run the contract's witness builder on the counter-model against the real code"""
     model = {k: _jsonable(v) for k, v in rec.get("model", [])}
     data = {"property": prop, "obligation": f"{rec['contract']} [{rec['cfg']}] :: {rec['name']}",
@@ -726,7 +813,7 @@ def do_replay(prop, c, rec, s, g):
             "solver": rec["backend"], "path_condition": s["pc"][-12:], "reproduced": False, "observed": None,
             "rerun": f"cd {HERE} && ./check {prop} --tier quick"}
     reproduced = False
-    if c.replay is not None:
+    if c.replay is not None and run:
         try:
             cmd = [PYTHON, os.path.join(HERE, "replay", "run.py"), c.replay, json.dumps(model),
                    json.dumps({"cfg": rec["cfg"], "obligation": rec["name"], "prop": prop, "contract": rec["contract"]})]
